@@ -60,10 +60,22 @@ static int bad_params(fc_ctx* c, int j, err_t* exp)
 	case 5: p->q[0] ^= 2; return c->n[31] ? 1 : FC_SOFT(exp);
 	case 6: p->yG[3] ^= 0x10; return c->n[31] ? 1 : FC_SOFT(exp);    /* base point off the curve */
 	case 7: p->b[5] ^= 1; return c->n[31] ? 1 : FC_SOFT(exp);
+	case 8:
+	{
+		/* bign.h: "unused octets must be zero" - one non-zero octet anywhere in the unused tail of
+		   p, a, b, q or yG (l < 256 only; every working function checks this in bignIsOperable) */
+		size_t no = p->l / 4;
+		octet* fld[5];
+		fld[0] = p->p, fld[1] = p->a, fld[2] = p->b, fld[3] = p->q, fld[4] = p->yG;
+		if (p->l != 128 && p->l != 192)
+			return FC_SOFT(exp);
+		fld[fc_below(c, 5)][no + fc_below(c, (uint32_t)(64 - no))] = (octet)(1u << fc_below(c, 8));
+		return 1;
+	}
 	}
 	return 0;
 }
-#define NBADPAR 8
+#define NBADPAR 9
 
 static int bad_privkey(fc_ctx* c, int j, err_t* exp, int slot)
 {
@@ -487,6 +499,19 @@ static int bad_KeyUnwrap(fc_ctx* c, int j, err_t* exp)
 	case 5: /* x coordinate of R replaced by p-ish garbage */
 		memset(c->a[1], 0xFF, c->n[10] / 4);
 		return 1;
+	case 6:
+	{
+		/* a token made under a header that is zero but for one bit, presented without a header */
+		octet h[16];
+		if (!c->plain || c->n[1] != c->n[10] / 4 + 16 + c->plain_len)
+			return 0;
+		memset(h, 0, 16);
+		h[fc_below(c, 16)] = (octet)(1u << fc_below(c, 8));
+		if (bignKeyWrap(c->a[1], c->a[10], c->plain, c->plain_len, h, c->a[12], fc_tape, c) != ERR_OK)
+			return 0;
+		c->a[2] = 0;
+		return 1;
+	}
 	}
 	return 0;
 }
